@@ -163,3 +163,37 @@ Proof.
     cbn [firstn]. rewrite app_nil_r. rewrite <- Lbi at 1. rewrite nth_middle.
     rewrite app_nth2 by lia. replace (S L - length bi)%nat with 1%nat by lia. reflexivity.
 Qed.
+
+(* rank-1 x rank-1: inner product (same code in Dot and Matmul) *)
+Lemma inner_loop st n e0 e1 :
+  length e0 = Z.to_nat n -> length e1 = Z.to_nat n ->
+  fold_left (fun acc i => let* a := acc in let* x := znth e0 i in let* y := znth e1 i in
+                          Ok (k_add st a (k_mul st x y)))
+            (zrange n) (Ok 0)
+  = Ok (dot_sum n (fun l => get e0 [n] [l]) (fun l => get e1 [n] [l]) mod modulus st).
+Proof.
+  intros L0 L1.
+  pose proof (fold_dot_loop st (fun i => znth e0 i) (fun i => znth e1 i)
+                (fun l => get e0 [n] [l]) (fun l => get e1 [n] [l]) n) as H.
+  cbv beta in H. apply H. intros j Hj. unfold get. cbn [flat_pos].
+  replace (j * prod_list [] + 0) with j by (unfold prod_list; cbn; lia).
+  split; apply znth_ok; lia.
+Qed.
+
+Theorem matmul_inner_spec st st1 tr n e0 e1 :
+  length e0 = Z.to_nat n -> length e1 = Z.to_nat n ->
+  eval_matmul (TArray [n] st) (TArray [n] st1) tr (VArr e0) (VArr e1)
+  = Ok (VArr [dot_sum n (fun l => get e0 [n] [l]) (fun l => get e1 [n] [l]) mod modulus st]).
+Proof.
+  intros L0 L1. unfold eval_matmul. cbn [st_of is_arr andb negb shape_of arr_of bind length Nat.eqb hd].
+  rewrite inner_loop by auto. reflexivity.
+Qed.
+
+Theorem dot_inner_spec st st1 tr n e0 e1 :
+  length e0 = Z.to_nat n -> length e1 = Z.to_nat n ->
+  eval_dot (TArray [n] st) (TArray [n] st1) tr (VArr e0) (VArr e1)
+  = Ok (VArr [dot_sum n (fun l => get e0 [n] [l]) (fun l => get e1 [n] [l]) mod modulus st]).
+Proof.
+  intros L0 L1. unfold eval_dot. cbn [st_of is_arr andb negb shape_of arr_of bind length Nat.eqb hd].
+  rewrite inner_loop by auto. reflexivity.
+Qed.
